@@ -233,7 +233,6 @@ func doParsing(mp *msgParser) (err error) {
 	// Start parsing.
 	mp.fieldIndex++
 	xmlDataLen := 0
-	xmlDataMsg := false
 	mp.trailerBytes = []byte{}
 	mp.foundBody = false
 	mp.foundTrailer = false
@@ -245,7 +244,6 @@ func doParsing(mp *msgParser) (err error) {
 		if xmlDataLen > 0 {
 			mp.rawBytes, err = extractXMLDataField(mp.parsedFieldBytes, mp.rawBytes, xmlDataLen)
 			xmlDataLen = 0
-			xmlDataMsg = true
 		} else {
 			mp.rawBytes, err = extractField(mp.parsedFieldBytes, mp.rawBytes)
 		}
@@ -303,7 +301,7 @@ func doParsing(mp *msgParser) (err error) {
 	bodyLength, err := mp.msg.Header.getIntNoLock(tagBodyLength)
 	if err != nil {
 		err = parseError{OrigError: err.Error()}
-	} else if length != bodyLength && !xmlDataMsg {
+	} else if length != bodyLength {
 		err = parseError{OrigError: fmt.Sprintf("Incorrect Message Length, expected %d, got %d", bodyLength, length)}
 	}
 
